@@ -67,11 +67,11 @@ Definition comp_scale (l : nat) (c : comp) : F :=
 (* apply_from = "left": rows = spherical labels, columns = Cartesian components *)
 Definition sph_transform (l : nat) (carts : list comp) (labels : list label) : list (list F) :=
   map (fun '(neg, sine, m) =>
-    map (fun c => fapx K ((if (neg : bool) then fopp K (f1 K) else f1 K)
-                          * harmonic_coeff l m sine c * comp_scale l c)) carts)
+    map (fun c => (if (neg : bool) then fopp K (f1 K) else f1 K) * harmonic_coeff l m sine c * comp_scale l c) carts)
     labels.
 
+(* the matrix as used by the assemblies (entries pass through fapx: identity in theorems) *)
 Definition shell_transform (s : shell F) : list (list F) :=
-  sph_transform (s_l s) (comps_of s) (labels_of s).
+  map (map (fapx K)) (sph_transform (s_l s) (comps_of s) (labels_of s)).
 
 End Spherical.
